@@ -612,8 +612,9 @@ namespace
         {
             if (child.valid()) { mod.emplace_back(static_cast<long>(key.template checked_as<Int>()), static_cast<long>(child.value())); }
         }
-        for (auto [key, child] : d.added_items()) { add.push_back(static_cast<long>(key.template checked_as<Int>())); }
-        for (auto [key, child] : d.removed_items()) { rem.push_back(static_cast<long>(key.template checked_as<Int>())); }
+        // key-level delta accessors: they also report the keys of a previously referenced dictionary after a retarget
+        for (const auto &key : d.added_keys()) { add.push_back(static_cast<long>(key.template checked_as<Int>())); }
+        for (const auto &key : d.removed_keys()) { rem.push_back(static_cast<long>(key.template checked_as<Int>())); }
         std::sort(val.begin(), val.end());
         std::sort(mod.begin(), mod.end());
         std::sort(add.begin(), add.end());
@@ -942,7 +943,7 @@ namespace
             const std::string kind = l.pos.at(2);
             NodeSpec         &sp   = spec_of(id);
             std::vector<P>    in;
-            if (kind != "drec" && kind != "map" && kind != "reduce" && kind != "rrec" && kind != "mesh" && kind != "elem")
+            if (kind != "drec" && kind != "map" && kind != "reduce" && kind != "rrec" && kind != "mesh" && kind != "elem" && kind != "dite")
             {
                 for (auto &r : sp.ins) { in.push_back(resolve(env, r)); }
             }
@@ -1059,6 +1060,12 @@ namespace
             }
             else if (kind == "pack2") { env.lports.emplace(id, wire<VPack2>(w, in.at(0), in.at(1))); }
             else if (kind == "elem") { env.ports.emplace(id, tsl_element(env.lports.at(std::stol(sp.ins.at(0))), static_cast<std::size_t>(l.geti("i", 0)))); }
+            else if (kind == "dite")
+            {
+                // in=<cond int>,<dict then>,<dict else>: a reference to the selected dictionary
+                auto cond = wire<VToBool>(w, resolve(env, sp.ins.at(0)));
+                env.dports.emplace(id, wire<stdlib::if_then_else>(w, cond, env.dports.at(std::stol(sp.ins.at(1))), env.dports.at(std::stol(sp.ins.at(2)))).as<DInt>());
+            }
             else if (kind == "sched") { wire<VSched>(w, sid, in.at(0)); }
             else if (kind == "lsrc") { env.ports.emplace(id, wire<LSrc>(w, sid, Int{l.geti("cnt", 2)})); }
             else if (kind == "lpass") { env.ports.emplace(id, wire<LPass>(w, sid, in.at(0))); }
